@@ -1,37 +1,83 @@
 ------------------------------ MODULE LazyLoad ------------------------------
 (***************************************************************************)
-(* Refined model of lazyInstMgr::loadInstance / getRealInstance / STEPread  *)
-(* (src/cllazyfile/lazyInstMgr.cc:109-154): a referenced instance is loaded *)
-(* recursively while its referrer is being read; an instance is registered  *)
-(* in _instancesLoaded only after its read has returned.                    *)
+(* Refined model of lazyInstMgr::loadInstance / sectionReader::             *)
+(* getRealInstance / STEPread and of inverse resolution (lazyRefs), as the  *)
+(* code performs them since the repair of the re-entrancy defect (F-10a):   *)
+(*  - a referenced instance is loaded recursively while its referrer is     *)
+(*    being read;                                                           *)
+(*  - an instance is registered (known) as soon as its object exists,       *)
+(*    before its attributes are read, so that an instance reached again     *)
+(*    through its own references is returned, not read a second time;       *)
+(*  - the inverse attributes of every instance read are resolved only when  *)
+(*    the outermost load has returned (pending), by loading the referrers   *)
+(*    and looking at their - then complete - attributes.                    *)
+(* Before the repair an instance was registered after its read (a reference *)
+(* cycle recursed without end) and inverse resolution ran inside the        *)
+(* recursion, on half-read referrers.                                       *)
 (***************************************************************************)
 EXTENDS Integers, Sequences, FiniteSets
 CONSTANTS Ids, Graphs    \* Graphs: set of reference graphs [Ids -> Seq(Ids)] (references in attribute order)
-VARIABLES Refs, loaded, stack, root   \* Refs: the file's graph (fixed by Init); stack of frames [id, k]: reading reference number k of id; root: the outer call
-vars == <<Refs, loaded, stack, root>>
-Init == Refs \in Graphs /\ loaded = {} /\ stack = <<>> /\ root = 0
-Call(i) == /\ stack = <<>> /\ i \notin loaded
-           /\ stack' = <<[id |-> i, k |-> 1]>> /\ root' = i /\ UNCHANGED <<loaded, Refs>>
-Step == /\ stack # <<>>
+VARIABLES Refs,      \* the file's graph (fixed by Init)
+          HasInv,    \* the instances whose entity declares INVERSE attributes (fixed by Init)
+          known,     \* _instancesLoaded: registered, possibly still being read
+          done,      \* completely read
+          stack,     \* frames [id, k]: reading reference number k of id
+          pending,   \* _pendingInverse
+          resolved,  \* instances whose inverse attributes have been resolved
+          seenBy,    \* [x -> the referrers that were complete when x was resolved]
+          root       \* the outer call
+vars == <<Refs, HasInv, known, done, stack, pending, resolved, seenBy, root>>
+Referrers(x) == {y \in Ids : \E j \in 1..Len(Refs[y]) : Refs[y][j] = x}
+Init == /\ Refs \in Graphs /\ HasInv \in SUBSET Ids
+        /\ known = {} /\ done = {} /\ stack = <<>> /\ pending = <<>> /\ resolved = {} /\ seenBy = [x \in Ids |-> {}] /\ root = 0
+Push(i) == stack' = Append(stack, [id |-> i, k |-> 1]) /\ known' = known \cup {i}
+(* loadInstance(i) from the application *)
+Call(i) == /\ stack = <<>> /\ pending = <<>> /\ i \notin known
+           /\ Push(i) /\ root' = i /\ UNCHANGED <<Refs, HasInv, done, pending, resolved, seenBy>>
+(* STEPread of the instance on top of the stack: next reference, or end of its record *)
+Read == /\ stack # <<>>
         /\ LET f == stack[Len(stack)] IN
            IF f.k > Len(Refs[f.id])
-           THEN /\ loaded' = loaded \cup {f.id}                        \* _instancesLoaded.insert
+           THEN /\ done' = done \cup {f.id}
+                /\ pending' = Append(pending, f.id)
                 /\ stack' = SubSeq(stack, 1, Len(stack) - 1)
+                /\ UNCHANGED known
            ELSE LET r == Refs[f.id][f.k]
                     adv == [stack EXCEPT ![Len(stack)].k = f.k + 1]
-                IN IF r \in loaded
-                   THEN stack' = adv /\ UNCHANGED loaded               \* cache hit
-                   ELSE stack' = Append(adv, [id |-> r, k |-> 1]) /\ UNCHANGED loaded
-        /\ UNCHANGED <<root, Refs>>
-Next == (\E i \in Ids : Call(i)) \/ Step
-Spec == Init /\ [][Next]_vars /\ WF_vars(Step)
-(* what C10 needs from the mechanism *)
+                IN IF r \in known
+                   THEN stack' = adv /\ UNCHANGED <<known, done, pending>>       \* found (complete or being read)
+                   ELSE /\ stack' = Append(adv, [id |-> r, k |-> 1]) /\ known' = known \cup {r}
+                        /\ UNCHANGED <<done, pending>>
+        /\ UNCHANGED <<Refs, HasInv, resolved, seenBy, root>>
+(* at depth 0: resolve the inverse attributes of the instance queued last; a referrer not yet known is loaded first *)
+Resolve == /\ stack = <<>> /\ pending # <<>>
+           /\ LET x == pending[Len(pending)]
+                  missing == Referrers(x) \ known
+              IN IF x \in HasInv /\ missing # {}
+                 THEN /\ \E y \in missing : Push(y)
+                      /\ UNCHANGED <<done, pending, resolved, seenBy>>
+                 ELSE /\ pending' = SubSeq(pending, 1, Len(pending) - 1)
+                      /\ resolved' = resolved \cup {x}
+                      /\ seenBy' = [seenBy EXCEPT ![x] = IF x \in HasInv THEN Referrers(x) \cap done ELSE {}]
+                      /\ UNCHANGED <<known, done, stack>>
+           /\ UNCHANGED <<Refs, HasInv, root>>
+Next == (\E i \in Ids : Call(i)) \/ Read \/ Resolve
+Spec == Init /\ [][Next]_vars /\ WF_vars(Read) /\ WF_vars(Resolve)
+
+(* ---- what C10 and C11 need from the mechanism ---- *)
+(* no instance is read twice at the same time, cycles included *)
 NoReentry == \A a, b \in 1..Len(stack) : a # b => stack[a].id # stack[b].id
+(* outside a read every registered instance is complete *)
+QuietIsComplete == stack = <<>> => known = done
 RECURSIVE Reach(_, _)
 Reach(frontier, seen) == LET nxt == UNION {{Refs[x][j] : j \in 1..Len(Refs[x])} : x \in frontier} \ seen
                          IN IF nxt = {} THEN seen ELSE Reach(nxt, seen \cup nxt)
-(* when an outer load has finished, exactly the instance and its dependency closure have been loaded on top of *)
-(* what was loaded before (nothing else is touched)                                                            *)
-LoadsClosure == (stack = <<>> /\ root # 0) => ({root} \cup Reach({root}, {})) \subseteq loaded
-Terminates == []<>(stack = <<>>)
+Quiet == stack = <<>> /\ pending = <<>>
+(* C10: when a load has finished, the instance and its dependency closure are loaded *)
+LoadsClosure == (Quiet /\ root # 0) => ({root} \cup Reach({root}, {})) \subseteq done
+(* C11: every loaded instance has had its inverse attributes resolved, and they hold exactly its referrers, *)
+(* each of which was completely read when it was examined                                                   *)
+InverseExact == Quiet => /\ done \subseteq resolved
+                         /\ \A x \in done \cap HasInv : seenBy[x] = Referrers(x)
+Terminates == []<>Quiet
 =============================================================================
